@@ -86,6 +86,7 @@ class Fuzzer:
         self.token_n = 0
         self.fail_next_schedule_db = False
         self.early_job_started = 0
+        self.driver_restarts = 0
         self.http_fe = None
         self.commits_via_route = set()
         self.route_commits = 0
@@ -709,6 +710,12 @@ class Fuzzer:
         await add_attempt_resources(self.w.dr_app, self.w.db, a['batch_id'], a['job_id'], a['attempt_id'], self._resources(a))
         return {'attempt': [a['batch_id'], a['job_id'], a['attempt_id']]}
 
+    async def op_restart_driver(self):
+        await self._drain()
+        await self.w.restart_driver()
+        self.driver_restarts += 1
+        return {'instances_reloaded': len(self.w.instances)}
+
     async def op_advance_clock(self):
         dt = self.rng.choice([0.001, 0.5, 3, 60, 3600, 90000])
         self.w.loop.advance(dt)
@@ -737,7 +744,7 @@ class Fuzzer:
         'cancel_orphaned': 0.7, 'cancel_fast_failing': 1, 'cleanup_staging': 1, 'cleanup_cancellable': 1, 'compact': 0.7,
         'compact_by_date': 0.7, 'check_resource_aggregation': 0.3,
         'job_started': 5, 'job_complete': 9, 'billing_update': 2, 'unschedule': 1.5, 'add_attempt_resources': 1, 'advance_clock': 3,
-        'interleaved_background': 1.5,
+        'interleaved_background': 1.5, 'restart_driver': 0,
     }
 
     async def step(self):
